@@ -46,6 +46,10 @@ pub fn alphabet() -> Vec<ROp> {
         ROp::Add("(let $y (add (var $y) c) (mul b a))"),
         ROp::Union("(app f (var $x))", "(app g (var $x))"),
         ROp::Union("(add a b)", "(add b a)"),
+        // two symbol leaves in one class: equal-cost alternatives for extraction
+        // (a and y, c and h fall into the same shard of the symbol table: their table numbers compare by first mention)
+        ROp::Union("a", "y"),
+        ROp::Union("c", "h"),
         ROp::Union("(app (app h (var $x)) (var $y))", "(app (app h (var $y)) (var $x))"),
         ROp::Union("(mul a (var $x))", "zero"),
         ROp::Add("(app (app (app h (var $x)) (var $y)) (var $x))"),
@@ -151,7 +155,9 @@ pub fn interferer_strings() -> Vec<String> {
     // would be wrong — so compute shards from a *separate* scan that interns candidates only.
     let shard = |s: &str| -> u32 { NonZeroU32::from(Symbol::from(s)).get() >> 28 };
     let wanted: Vec<u32> = MAIN_SYMBOLS.iter().map(|s| shard(s)).collect();
-    let mut out = Vec::new();
+    // first the history's OWN symbols in reverse order: another thread may mention the same names first and in another
+    // order, which flips the relative order of their table numbers
+    let mut out: Vec<String> = MAIN_SYMBOLS.iter().rev().map(|s| s.to_string()).collect();
     let mut per: std::collections::BTreeMap<u32, usize> = Default::default();
     for i in 0..4000 {
         let s = format!("zq{i}");
